@@ -24,7 +24,7 @@ func (c16) Gen(r *Rng, tier string, emit func(string, Tok)) {
 		data := m.bytes()
 		// adaptation fields with private data, PCR and extensions on some packets (retained slices)
 		for off := 0; off+188 <= len(data); off += 188 {
-			if data[off+3]&0x20 != 0 && data[off+4] >= 12 && r.Chance(1, 2) {
+			if data[off+3]&0x20 != 0 && data[off+4] >= 12 && data[off+5]&0x10 == 0 && r.Chance(1, 2) {
 				n := int(data[off+4]) - 2
 				if n > 40 {
 					n = 40
